@@ -242,95 +242,254 @@ def run(c, prog):
     run_count(c, prog)
 
 
+# ------------------------------------------------------------------ chunk bodies as symbolic event lists
+def chunk_events(prog, fn):
+    """events of a serialize_* function (self symbolic; RbxWriteExt array helpers as column primitives;
+    `ChunkBuilder::dump` and `id_to_referent.insert` as sinks)"""
+    import re as _re
+    from sa import sym, wire
+    from . import C01_arm
+
+    def p_dump(I, n, path, arg_nodes, env):
+        ch = I.eval(arg_nodes[0], env)
+        out = I.eval(arg_nodes[1], env)
+        I.emit(("sink", "dump", ("tup", (sym.fld(ch, "chunk_name"), sym.fld(ch, "compression"), out)), core.loc(n)))
+        return sym.var(sym.OK, sym.UNIT)
+
+    def p_map_insert(I, n, path, arg_nodes, env):
+        m = I.eval(arg_nodes[0], env)
+        k = I.eval(arg_nodes[1], env)
+        v = I.eval(arg_nodes[2], env)
+        I.emit(("sink", "insert", ("tup", (m, k, v)), core.loc(n)))
+        return sym.var(sym.NONE)
+    prims = C01_arm.binary_prims() + [(_re.compile(r"chunk::ChunkBuilder::dump$"), p_dump), (_re.compile(r"HashMap::<K, V, S(, A)?>::insert$"), p_map_insert)]
+    I = C01_arm.BinInterp(prog, prims=prims, depth=8, opaque=wire.OPAQUE)
+    selft = ("in", "self")
+    try:
+        I.eval(fn.body, {fn.params[0]["lid"]: selft})
+    except sym.Exit:
+        pass
+    return I.events, selft
+
+
+def le_of(e, width=4):
+    """the integer term written by a `W bytes to_le_bytes(x)` event of the given width, casts dropped; else None"""
+    import re as _re
+    if e[0] != "W" or e[1] != "bytes":
+        return None
+    t = e[2]
+    if t[0] == "app" and len(t[2]) == 1:
+        m = _re.search(r"<impl [iuf](\d+)>::to_le_bytes$", t[1])
+        if m and int(m.group(1)) // 8 == width:
+            return untyped(t[2][0])
+    return None
+
+
+def byte_of(e):
+    """the single byte written by `W bytes [x]` (write_u8 / write_bool), casts dropped"""
+    if e[0] == "W" and e[1] == "bytes" and e[2][0] == "vec" and len(e[2][1]) == 1 and e[2][1][0][0] == "one":
+        return untyped(e[2][1][0][1])
+    return None
+
+
+def fill_of(e):
+    """(count, byte) for `W bytes [b; n]`, or for a loop `for _ in 0..n { write_u8(b) }`"""
+    from sa import sym
+    if e[0] == "W" and e[1] == "bytes" and e[2][0] == "vec" and len(e[2][1]) == 1 and e[2][1][0][0] == "fill":
+        return untyped(e[2][1][0][1]), untyped(e[2][1][0][2])
+    if e[0] == "rep" and len(e[2]) == 1 and byte_of(e[2][0]) is not None:
+        d = e[1]
+        if d[0] == "range" and d[1] == ("c", 0):
+            return untyped(d[2]), byte_of(e[2][0])
+        if d[0] == "count":
+            return untyped(d[1]), byte_of(e[2][0])
+    return None
+
+
+def string_of(evs, k):
+    """term of a length-prefixed string written at evs[k], evs[k+1] (`write_string` / `write_binary_string`)"""
+    if k + 1 < len(evs) and evs[k + 1][0] == "W" and evs[k + 1][1] == "bytes":
+        t = evs[k + 1][2]
+        if le_of(evs[k]) == length_of(t):
+            return t
+    return None
+
+
+def column_of(e, prim="ref_array"):
+    """(domain, element term) of a column write"""
+    from sa import sym
+    if e[0] == "W" and e[1] == prim and e[2][0] == "vec" and len(e[2][1]) == 1 and e[2][1][0][0] == "seg" and e[2][1][0][3] is None:
+        return sym.norm_dom(e[2][1][0][1]), e[2][1][0][2]
+    return None
+
+
+def mentions_term(t, sub):
+    if t == sub:
+        return True
+    if isinstance(t, tuple):
+        return any(mentions_term(x, sub) for x in t)
+    return False
+
+
+def strip_try_unwrap(t):
+    """drop `?` / unwrap / try_into / deref wrappers around a term"""
+    while isinstance(t, tuple) and t:
+        if t[0] == "try":
+            t = t[1]
+        elif t[0] == "cast":
+            t = t[2]
+        elif t[0] == "app" and len(t[2]) == 1 and t[1].rsplit("::", 1)[-1] in ("try_into", "unwrap", "into", "clone", "deref", "try_from", "from"):
+            t = t[2][0]
+        elif t[0] == "payload" and t[3] == 0:
+            t = t[1]
+        else:
+            break
+    return t
+
+
+def success_paths(events):
+    from sa import sym
+    return [(conds, evs) for conds, evs, x, v in sym.event_paths(events) if x != "err"]
+
+
 def run_count(c, prog):
+    from sa import sym
     R = "C03.count"
-    c.rule(R, "every length prefix and the loop / array that follows it range over the same collection (same-source rule): SSTR, INST, PRNT, header; class ids are allocated by a monotone counter under a vacant-entry guard; SharedStrings are pushed once")
-    # SSTR
+    c.rule(R, "chunk bodies as symbolic event lists: SSTR = version 0 · count · (16 zero bytes · string)* over the same list; INST = class id · name · object format · count · referent column over the class's instances · one marker byte per instance iff service; PRNT = version 0 · count · child column · parent column, both over relevant_instances; referents number relevant_instances densely in order; every count is the length of the collection the following loop / column ranges over; class ids come from a monotone counter under a vacant-entry guard")
+
+    def ref_of(t):
+        """the instance whose referent number a term denotes: id_to_referent[<x>] / .get(<x>)"""
+        if t[0] == "app" and t[1] == "index" and t[2][0] == sym.fld(("in", "self"), "id_to_referent"):
+            return t[2][1]
+        return None
+    # ---- SSTR
     f = common.find_fn(prog, SS + "serialize_shared_strings$")
-    d = describe(prog, seq(prog, f))
-    body = [x for x in d if x[0] in ("call", "for")]
-    want = [("call", "ChunkBuilder::new"), ("call", "write_le_u32", (("const", 0),)), ("call", "write_le_u32", (("len", "self.shared_strings"),)),
-            ("for", ("place", "self.shared_strings"), (("call", "write_all", (("const", (0,) * 16),)), ("call", "write_binary_string", (("expr", "shared_string.data()"),)))),
-            ("call", "dump")]
-    got = [x[:2] if x[0] == "call" and x[1] in ("ChunkBuilder::new", "dump") else x for x in body]
-    # loop variable name independence: compare structure of the for body by callee + arg kind
-    def norm_for(x):
-        if x[0] != "for":
-            return x
-        inner = tuple((y[0], y[1], tuple(a if a[0] != "expr" else ("expr", a[1].split(".", 1)[-1]) for a in y[2])) for y in x[2])
-        return ("for", x[1], inner)
-    got = [norm_for(x) for x in got]
-    want = [norm_for(x) for x in want]
-    expect(c, R, "sstr", got, want, "SSTR chunk (version, count, [16-byte hash, string]*)", f.sp)
-    # INST
-    f = common.find_fn(prog, SS + "serialize_instances$")
-    d = describe(prog, seq(prog, f))
     ok = False
-    if len([x for x in d if x[0] == "for"]) == 1:
-        fr = [x for x in d if x[0] == "for"][0]
-        if fr[1] == ("place", "self.type_infos.values"):
-            inner = fr[2]
-            names = [(x[1], x[2]) if x[0] == "call" else x[0] for x in inner]
-            exp_prefix = [("ChunkBuilder::new",), ("write_le_u32", (("place", "type_info.type_id"),)), ("write_string", (("place", "type_name"),)),
-                          ("write_bool", (("place", "type_info.is_service"),)), ("write_le_u32", (("len", "type_info.instances"),))]
-            pre = [n if isinstance(n, str) else ((n[0],) if n[0] == "ChunkBuilder::new" else n) for n in names[:5]]
-            refarr = inner[5] if len(inner) > 5 else None
-            ref_ok = refarr and refarr[0] == "call" and refarr[1] == "write_referent_array"
-            # the referent array iterates type_info.instances
-            node = [it for it in ioseq.flat_calls(seq(prog, f)) if it[1] == "write_referent_array"]
-            src_ok = node and core.place_root(node[0][2]["args"][0])[1][:1] == ["instances"] and core.place_root(node[0][2]["args"][0])[0] == "type_info"
-            svc = inner[6] if len(inner) > 6 else None
-            svc_ok = svc and svc[0] == "if" and svc[1] == ("place", "type_info.is_service") and len(svc[2]) == 1 and svc[2][0][0] == "for" \
-                and svc[2][0][2] == (("call", "write_u8", (("const", 1),)),) and not svc[3]
-            # marker loop bound: 0..type_info.instances.len()
-            bound_ok = False
-            for n in core.walk_fn(f):
-                fl = core.as_for(n)
-                if fl is not None and core.strip(fl[1]).get("k") == "Struct" and "Range" in (core.strip(fl[1]).get("def") or ""):
-                    fields = {x["f"]: x["e"] for x in core.strip(fl[1])["fields"]}
-                    if core.lit_value(fields.get("start", {})) == 0 and argdesc(prog, fields.get("end", {})) == ("len", "type_info.instances"):
-                        bound_ok = True
-            dump_ok = len(inner) > 7 and inner[7][:2] == ("call", "dump")
-            ok = pre == exp_prefix and ref_ok and src_ok and svc_ok and bound_ok and dump_ok and len(inner) == 8
-            if not ok:
-                detail = {"prefix": pre == exp_prefix, "referents": bool(ref_ok and src_ok), "service_markers": bool(svc_ok and bound_ok), "dump": bool(dump_ok), "len": len(inner)}
+    why = ""
+    try:
+        evs, selft = chunk_events(prog, f)
+        L = sym.fld(selft, "shared_strings")
+        for conds, pe in success_paths(evs):
+            body = [e for e in pe if e[0] in ("W", "rep", "sink")]
+            if not body:
+                continue      # nothing written: the chunk is omitted when there are no shared strings
+            good = len(body) == 4 and le_of(body[0]) == ("c", 0) and le_of(body[1]) == length_of(L) and body[2][0] == "rep" \
+                and sym.norm_dom(body[2][1]) == sym.norm_dom(("iter", L)) and body[3][0] == "sink" and body[3][1] == "dump"
+            if good:
+                inner = [e for e in body[2][2] if e[0] in ("W", "rep")]
+                fz = fill_of(inner[0]) if inner else None
+                st = string_of(inner, 1) if len(inner) == 3 else None
+                good = fz == (("c", 16), ("c", 0)) and st is not None and st[0] == "app" and st[1].endswith("SharedString::data") and st[2] == (("elem", L),)
+                good = good and body[3][2][1][0] == ("c", tuple(b"SSTR")) and body[3][2][1][2] == sym.fld(selft, "output")
+            if good:
+                ok = True
+            else:
+                why = "a path writes " + "; ".join(sym.term_str(e[2], 4) if e[0] == "W" else e[0] for e in body[:6])
+                ok = False
+                break
+    except (sym.Unsupported, core.AnalysisError) as e:
+        why = f"outside the symbolic model: {e}"
+    if ok:
+        c.ok(R, "sstr")
+    else:
+        c.violation(R, "sstr|seq", f"SSTR chunk is not `version 0 · count = shared_strings.len() · for each of the same strings: 16 zero bytes, length-prefixed data` dumped to self.output ({why})", f.sp, instance="sstr")
+    # ---- INST
+    f = common.find_fn(prog, SS + "serialize_instances$")
+    ok = False
+    detail = {}
+    try:
+        evs, selft = chunk_events(prog, f)
+        top = [e for e in evs if e[0] in ("W", "rep", "sink", "alt")]
+        TV = sym.fld(sym.fld(selft, "type_infos"), "values")
+        if len(top) == 1 and top[0][0] == "rep" and sym.norm_dom(top[0][1]) == sym.norm_dom(("iter", TV)):
+            el = ("elem", TV)
+            name_t, info = sym.fld(el, "0"), sym.fld(el, "1")
+            inst_list = sym.fld(info, "instances")
+            paths = success_paths(top[0][2])
+            allgood = bool(paths)
+            for conds, pe in paths:
+                b = [e for e in pe if e[0] in ("W", "rep", "sink")]
+                svc = sym.fld(info, "is_service")
+                is_svc = svc in conds
+                pre = len(b) >= 6 and le_of(b[0]) == sym.fld(info, "type_id") and string_of(b, 1) == name_t and byte_of(b[3]) == svc and le_of(b[4]) == length_of(inst_list)
+                col = column_of(b[5]) if len(b) > 5 else None
+                rk = ref_of(col[1]) if col is not None else None
+                refs = col is not None and col[0] == sym.norm_dom(("iter", inst_list)) and rk is not None and (
+                    rk == sym.fld(("elem", inst_list), "referent") or (rk[0] == "app" and rk[2] == (("elem", inst_list),) and rk[1].endswith("Instance::referent")))
+                rest = b[6:]
+                if is_svc:
+                    mk = fill_of(rest[0]) if rest else None
+                    markers = mk == (length_of(inst_list), ("c", 1))
+                    rest = rest[1:]
+                else:
+                    markers = True
+                dump = len(rest) == 1 and rest[0][0] == "sink" and rest[0][1] == "dump" and rest[0][2][1][0] == ("c", tuple(b"INST")) and rest[0][2][1][2] == sym.fld(selft, "output")
+                detail = {"prefix": bool(pre), "referents": bool(refs), "service_markers": bool(markers), "dump": bool(dump), "service-path": is_svc}
+                if not (pre and refs and markers and dump):
+                    allgood = False
+                    break
+            ok = allgood
+        else:
+            detail = {"loop": "serialize_instances is not one loop over self.type_infos.values"}
+    except (sym.Unsupported, core.AnalysisError) as e:
+        detail = {"error": f"outside the symbolic model: {e}"}
     if ok:
         c.ok(R, "inst")
     else:
-        c.violation(R, "inst|layout", f"INST chunk layout differs from docs/binary.md (class id, name, object format, count, referents of the same instances, one service marker per instance iff service): {locals().get('detail')}", f.sp, instance="inst")
-    # PRNT
+        c.violation(R, "inst|layout", f"INST chunk layout differs from docs/binary.md (class id, name, object format, count, referents of the same instances, one service marker per instance iff service): {detail}", f.sp, instance="inst")
+    # ---- PRNT
     f = common.find_fn(prog, SS + "serialize_parents$")
-    calls = [it for it in ioseq.flat_calls(ioseq.skeleton(f.body, is_write, into_closures=False))]
-    d = [(it[1], tuple(argdesc(prog, a) for a in it[2]["args"])) for it in calls]
-    ok = [x[0] for x in d] == ["ChunkBuilder::new", "write_u8", "write_le_u32", "write_referent_array", "write_referent_array", "dump"] \
-        and d[1][1] == (("const", 0),) and d[2][1] == (("len", "self.relevant_instances"),)
-    srcs = []
-    if ok:
-        # both arrays are maps over self.relevant_instances
-        for nm in ("object_referents", "parent_referents"):
-            for st in core.walk_lets(f.body):
-                if st["pat"].get("name") == nm:
-                    root, path = core.place_root(st["init"])
-                    srcs.append((root, tuple(p for p in path if not p.startswith("."))))
-        a0 = core.strip(calls[3][2]["args"][0]).get("name")
-        a1 = core.strip(calls[4][2]["args"][0]).get("name")
-        ok = srcs == [("self", ("relevant_instances",)), ("self", ("relevant_instances",))] and (a0, a1) == ("object_referents", "parent_referents")
+    ok = False
+    why = ""
+    try:
+        evs, selft = chunk_events(prog, f)
+        RI = sym.fld(selft, "relevant_instances")
+        for conds, pe in success_paths(evs):
+            b = [e for e in pe if e[0] in ("W", "rep", "sink")]
+            good = len(b) == 5 and byte_of(b[0]) == ("c", 0) and le_of(b[1]) == length_of(RI)
+            c0 = column_of(b[2]) if good else None
+            c1 = column_of(b[3]) if good else None
+            good = good and c0 is not None and c1 is not None and c0[0] == c1[0] == sym.norm_dom(("iter", RI))
+            good = good and ref_of(c0[1]) == ("elem", RI)
+            # parent column: derived from the same element's instance's parent, -1 when absent
+            good = good and mentions_term(c1[1], ("elem", RI)) and mentions_term(c1[1], ("c", -1)) and not mentions_term(c0[1], ("c", -1))
+            good = good and b[4][0] == "sink" and b[4][1] == "dump" and b[4][2][1][0] == ("c", tuple(b"PRNT")) and b[4][2][1][2] == sym.fld(selft, "output")
+            ok = good
+            if not good:
+                why = "; ".join(sym.term_str(e[2], 4) if e[0] == "W" else e[0] for e in b[:6])
+                break
+    except (sym.Unsupported, core.AnalysisError) as e:
+        why = f"outside the symbolic model: {e}"
     if ok:
         c.ok(R, "prnt")
     else:
-        c.violation(R, "prnt|layout", f"PRNT chunk: expected version 0, count = relevant_instances.len(), child array then parent array both over relevant_instances; got {d} sources {srcs}", f.sp, instance="prnt")
-    # id_to_referent filled from enumerate(relevant_instances)
+        c.violation(R, "prnt|layout", f"PRNT chunk: expected version 0, count = relevant_instances.len(), child array then parent array both over relevant_instances ({why})", f.sp, instance="prnt")
+    # ---- id_to_referent numbers relevant_instances by position
     f = common.find_fn(prog, SS + "generate_referents$")
-    fl = [core.as_for(n) for n in core.walk_fn(f) if core.as_for(n) is not None and n.get("k") != "DropTemps"]
     ok = False
-    if len(fl) == 1:
-        it = core.strip(fl[0][1])
-        if it.get("k") == "MethodCall" and it["m"] == "enumerate" and core.place_root(it["recv"]) == ("self", ["relevant_instances", ".iter()"]):
-            ok = True
+    why = ""
+    try:
+        evs, selft = chunk_events(prog, f)
+        RI = sym.fld(selft, "relevant_instances")
+        reps = [e for e in evs if e[0] == "rep"]
+        if len(reps) == 1:
+            dom = reps[0][1]
+            sinks = [e for e in reps[0][2] if e[0] == "sink" and e[1] == "insert"]
+            if len(sinks) == 1:
+                m, k, v = sinks[0][2][1]
+                v = untyped(strip_try_unwrap(v))
+                k = strip_try_unwrap(k)
+                by_enum = sym.norm_dom(dom) == sym.norm_dom(("iter", RI)) and k == ("elem", RI) and v == ("idx", dom)
+                by_index = dom[0] == "range" and dom[1] == ("c", 0) and untyped(dom[2]) == length_of(RI) and k == ("app", "index", (RI, ("idx", dom))) and v == ("idx", dom)
+                ok = m == sym.fld(selft, "id_to_referent") and (by_enum or by_index)
+                if not ok:
+                    why = f"{sym.term_str(k, 4)} -> {sym.term_str(v, 4)} over {sym.term_str(dom, 4)}"
+    except (sym.Unsupported, core.AnalysisError) as e:
+        why = f"outside the symbolic model: {e}"
     if ok:
         c.ok(R, "referents:dense-enumeration")
     else:
-        c.violation(R, "referents|numbering", "generate_referents no longer numbers `relevant_instances` by enumerate() (dense, traversal-ordered referents)", f.sp, instance="referents:dense-enumeration")
+        c.violation(R, "referents|numbering", f"generate_referents no longer gives relevant_instances[i] the referent i (dense, traversal-ordered referents) ({why})", f.sp, instance="referents:dense-enumeration")
     # class ids: get_or_create
     f = common.find_fn(prog, r"serializer::state::TypeInfos.*::get_or_create$")
     ok = False
